@@ -350,6 +350,8 @@ def compare_reverse_complement(before, after, ctx, where, report, check_seq=True
             report("rc-letter-annotations", "%s: per-letter track %r is not reversed with the sequence (%r -> %r)" % (where, t, list(v)[:8], la1[t][:8]), n=n)
     ft1 = feature_table(after)
     mirror = lambda p: (p if p[0] == "remote" else ("gap", (n - p[1]) % n)) if isinstance(p, tuple) else (n - 1 - p) % n
+    # a part located on another record is not this molecule's: Biopython leaves it exactly as it is, strand included
+    flip = lambda p, st: st if (isinstance(p, tuple) and p[0] == "remote") else (-st if st else st)
 
     def judge_pair(key, f0, f1):
         t0, i0, q0, p0 = f0
@@ -363,7 +365,7 @@ def compare_reverse_complement(before, after, ctx, where, report, check_seq=True
         stranded = all(x[2] in (1, -1) for x in p0)
         d0 = denote({"parts": p0}, n)
         d1 = denote({"parts": p1}, n)
-        exp = [(mirror(p), (-st if st else st)) for p, st in d0]
+        exp = [(mirror(p), flip(p, st)) for p, st in d0]
         ctx.count("rc_feature_checks")
         if [st for _, st in d1] != [st for _, st in exp] and len(d1) == len(exp):
             report("rc-feature-strand", "%s: feature %s at %r became %r: strand not flipped" % (where, key, p0, p1), n=n, before=p0, after=p1)
@@ -393,7 +395,7 @@ def compare_reverse_complement(before, after, ctx, where, report, check_seq=True
                 hit = f1
                 break
             stranded = all(x[2] in (1, -1) for x in p0)
-            exp = [(mirror(p), (-st if st else st)) for p, st in denote({"parts": p0}, n)]
+            exp = [(mirror(p), flip(p, st)) for p, st in denote({"parts": p0}, n)]
             d1 = denote({"parts": p1}, n)
             if [st for _, st in d1] == [st for _, st in exp] and same_denotation(exp, d1, n, stranded=stranded):
                 hit = f1
